@@ -308,6 +308,8 @@ def main(rep, tier):
     f = F.load(("async", "http"))
     rep.configs.append({"features": "async,http", "profile": "debug", "bodies": len(f.bodies)})
     check.guard(rep, "R9", run, f)
+    import check as _c
+    _c.witnesses(rep, "C09", f)
     return rep.finish(
         "Delegation, copy/consume pairing, 'no early exit between a productive parse and returning its result', writers and guards of the "
         "writeable flag, construction sites of StreamWriter.",
